@@ -126,6 +126,9 @@ class World(object):
             return R['os.scandir'](path)
 
         def os_rename(src, dst, **kw):
+            if sim(src) != sim(dst):
+                import errno as _errno
+                raise OSError(_errno.EXDEV, os.strerror(_errno.EXDEV), os.fspath(src), None, os.fspath(dst))
             if sim(src) or sim(dst):
                 return fs.rename(src, dst)
             return R['os.rename'](src, dst, **kw)
